@@ -608,7 +608,7 @@ def small_scope_objects(ctx):
                 for f in field_raws(et[en][1], kl1, cnt, empty=True):
                     cases.append(ObjCase(te, [f], "small-1"))
     # two fields
-    pool = FACE_POOL_5 if ctx.thorough else FACE_POOL_2
+    pool = FACE_POOL_3 if ctx.thorough else FACE_POOL_2
     kl2 = exc_lists(pool, 2)
     shapes2 = [((1, 0, a), (0, op, b)) for a in names for b in names for op in (0, 1)]
     shapes2 += [((f0, o0, "U8"), (f1, o1, "U8")) for f0 in (0, 1) for o0 in (0, 1) for f1 in (0, 1) for o1 in (0, 1)]
@@ -638,7 +638,7 @@ def small_scope_objects(ctx):
 def exhaustive_payloads(ctx):
     """every byte string over a framing-relevant alphabet, up to a length, for two small layouts"""
     alpha = (0x00, 0x01, 0x02, 0x80, 0x81, 0xFF)
-    maxlen = ctx.pick(4, 6)
+    maxlen = ctx.pick(4, 5)
     tes = [synth_te(((1, 0, "U8"), (0, 1, "U8"))), synth_te(((1, 0, "U8"), (0, 0, "U8"), (0, 1, "U8")))]
     out = []
     for te in tes:
@@ -793,12 +793,12 @@ def suite_small(ctx, model: Model):
                           "the real element specs U8 (1 byte), U32 (4), UUID (16). Object-form values, exhaustive: 1 field x {element} x "
                           "{optional} x {first} x (absent, {}, 0..2 exceptions keyed by ordered pairs from 12 face tuples incl. faces > 7, "
                           "the empty tuple, an unsorted and a repeated one); 2 fields x 9 element pairs x {optional tail} + all 16 flag "
-                          "combinations over U8,U8 (improper layouts too) x (absent, 0..2 exceptions from 2 (thorough 5) tuples) per field; "
+                          "combinations over U8,U8 (improper layouts too) x (absent, 0..2 exceptions from 2 (thorough 3) tuples) per field; "
                           "3 fields: 6 element orders x {optional tail} + 8 optional patterns over U8^3 x (absent, 0..1 exception) per "
                           "field; element bytes cycle through 00.., 01.., 80.., ff.. (so defaults and values start with 00 regularly); "
                           "dicts with the None key late / missing. Compared: serialize bytes or exception, the model's round-trip "
                           "domain flag (where it holds the implementation must decode its own output to the same value). Every produced "
-                          "payload (quick: through the wrappers for every fourth 1- and 2-field one), every proper prefix of the short ones, and EVERY byte string up to length 4 (thorough 6) over "
+                          "payload (quick: through the wrappers for every fourth 1- and 2-field one), every proper prefix of the short ones, and EVERY byte string up to length 4 (thorough 5) over "
                           "{00,01,02,80,81,ff} for two layouts then go through decode in object and plain-data form, bare and through both "
                           "wrappers: accept/reject, None/value, bytes left, decoded structure (keys in dict order; elements compared as "
                           "canon(real element spec applied to the model's raw element)), re-encoding byte-for-byte, and C09's one-pass "
@@ -869,7 +869,7 @@ def suite_live(ctx, model: Model, live: RealTE):
     counts, stats = {}, {}
     T, se = _mods()
     objs = []
-    for i in range(ctx.pick(110, 4000)):
+    for i in range(ctx.pick(110, 1200)):
         objs.append(ObjCase(live, random_object(rng, live), "random"))
     # the class default and a value made by from_tes
     objs.append(ObjCase(live, [(elem_enc(s, elem_dec(s, bytes(k), False)), [], 0) for s, (_, _, k) in zip(live.specs, live.layout)], "zeros"))
@@ -889,7 +889,7 @@ def suite_live(ctx, model: Model, live: RealTE):
             produced.append((None, dflt[1], True))
     except Exception:       # noqa
         pass
-    n_mut = ctx.pick(2, 8)
+    n_mut = ctx.pick(2, 4)
     for c, b, in_dom in produced:
         origin = "generated" if in_dom else "produced-outside-domain"
         add("bare", b, origin)
@@ -904,7 +904,7 @@ def suite_live(ctx, model: Model, live: RealTE):
         for _ in range(2):
             add("bare", b[:rng.randrange(len(b) + 1)], "truncated")
     # truncation at every position of a few payloads
-    for c, b, in_dom in produced[:ctx.pick(2, 40)]:
+    for c, b, in_dom in produced[:ctx.pick(2, 12)]:
         for i in range(len(b) + 1):
             add("reg-greedy", b[:i], "truncated")
     for n in (0, 1, 16, 17, 21, 62, 63, 64, 80):
@@ -954,6 +954,262 @@ def suite_live(ctx, model: Model, live: RealTE):
                      "terminator, repeated bitfield, trailing bytes) decode identically on both sides" % (reproduced, len(wit)))
     res.distribution = {k: v for k, v in sorted(stats.items())}
     res.samples = [{"layout": live.ltext, "payload": c.payload.hex()[:160], "mode": c.mode} for c in cases[:3]]
+    return res
+
+
+# =====================================================================================
+# ExtraParams: DictAdapter(Collection(U8, EnumSwitch(IntEnum(ExtraParamType, U16), {t: TypedByteArray(U32, tmpl)})))
+
+class LiveExtraParams:
+    def __init__(self):
+        T, se = _mods()
+        c = T.EXTRA_PARAM_COLLECTION
+        if type(c) is not se.DictAdapter or type(c._child_spec) is not se.Collection or c._child_spec._len_spec is not se.U8:
+            raise RuntimeError("EXTRA_PARAM_COLLECTION is not DictAdapter(Collection(U8, ..))")
+        es = c._child_spec._entry_ser
+        if type(es) is not se.EnumSwitch or type(es._enum_spec) is not se.IntEnum or es._enum_spec._child_spec is not se.U16 \
+                or es._enum_spec.enum_cls is not T.ExtraParamType:
+            raise RuntimeError("ExtraParams entry serializer is not EnumSwitch(IntEnum(ExtraParamType, U16), ..)")
+        for t, ch in es._choice_specs.items():
+            if type(ch) is not se.TypedByteArray or ch._bytes_tmpl._len_spec is not se.U32 or ch._empty_is_none:
+                raise RuntimeError("ExtraParams choice %r is not TypedByteArray(U32, template)" % (t,))
+        S = T.ObjectUpdateExtraParamsSerializer
+        if S.TEMPLATE is not c or not S.EMPTY_IS_NONE or not S.CHECK_TRAILING_BYTES or S.ENDIANNESS != "<":
+            raise RuntimeError("ObjectUpdateExtraParamsSerializer is not the wrapper the model covers")
+        self.coll, self.entry, self.ser, self.enum = c, es, S, T.ExtraParamType
+        self.choices = {int(t): ch for t, ch in es._choice_specs.items()}
+
+    def key_int(self, k):
+        if isinstance(k, str):
+            return int(self.enum[k])
+        return int(k)
+
+    def blob_dec(self, t, blob, pod):
+        return elem_dec(self.choices[t], len(blob).to_bytes(4, "little") + blob, pod)
+
+    def blob_enc(self, t, v):
+        return elem_enc(self.choices[t], v)[4:]
+
+    def decode(self, payload, pod):
+        try:
+            v = self.ser.deserialize(None, payload, pod=pod)
+        except Exception as e:      # noqa
+            return ("ERR", exc_name(e))
+        return ("N",) if v is None else ("V", v)
+
+    def encode(self, v):
+        try:
+            return ("OK", bytes(self.ser.serialize(None, v)))
+        except Exception as e:      # noqa
+            return ("ERR", exc_name(e))
+
+
+def dict_text(d):
+    return ",".join("%d:%s" % (k, hx(b)) for k, b in d) if d else "{}"
+
+
+def dict_parse(t):
+    if t == "{}":
+        return []
+    return [(int(e.split(":")[0]), unhx(e.split(":")[1])) for e in t.split(",")]
+
+
+def xp_check_payload(model, X, payloads, res, counts, stats):
+    """[(payload, pod, origin)] through model and implementation: accept/reject, dict order, values, re-encoding, one-pass clauses"""
+    outs = model.run(["xd " + hx(p) for p, _, _ in payloads])
+    wouts = model.run(["xw " + hx(p) for p, _, _ in payloads])
+    jobs = []
+    for (p, pod, origin), o, wo in zip(payloads, outs, wouts):
+        res.evaluations += 1
+        base = {"kind": "te-xp", "payload": p.hex(), "pod": pod, "origin": origin, "key": "ObjectUpdate.ObjectData.ExtraParams", "te": "extraparams"}
+        r = X.decode(p, pod)
+        stats["decode:" + (r[1] if r[0] == "ERR" else r[0])] = stats.get("decode:" + (r[1] if r[0] == "ERR" else r[0]), 0) + 1
+        w = o.split(" ")
+        m_acc = w[0] != "ERR"
+        norm = None
+        if w[0] == "V":
+            try:
+                md = dict_parse(w[1])
+                # the implementation decodes EVERY entry on the wire, also those a later entry with the same type overwrites:
+                # the entry codec (a parameter of the model) must accept each of them
+                for k, b in dict_parse(wo.split(" ")[1]):
+                    X.blob_dec(k, b, pod)
+                vals = [(k, X.blob_dec(k, b, pod)) for k, b in md]
+                norm = ([(k, c09_values.canon(v)) for k, v in vals], [(k, X.blob_enc(k, v)) for k, v in vals])
+            except Exception as e:      # noqa: unknown type / blob the sub-template refuses
+                m_acc = False
+        if m_acc != (r[0] != "ERR"):
+            report(res, counts, dict(base, what="accept/reject differ", model=o[:200], impl=repr(r)[:200]), dis=True)
+            continue
+        if r[0] == "ERR":
+            continue
+        res.distinct_nontrivial += 1
+        if (w[0] == "N") != (r[0] == "N"):
+            report(res, counts, dict(base, what="None vs value differ", model=o[:200], impl=repr(r)[:200]), dis=True)
+            continue
+        if r[0] == "V":
+            try:
+                got = [(X.key_int(k), c09_values.canon(v)) for k, v in r[1].items()]
+            except Exception as e:      # noqa
+                got = "EXC " + str(e)
+            if got != norm[0]:
+                report(res, counts, dict(base, what="decoded dict differs", model=o[:300], impl=repr(got)[:300]), dis=True)
+                continue
+        jobs.append((p, pod, origin, r, w[0], norm, base))
+    outs = model.run(["xe " + ("N" if k == "N" else dict_text(norm[1])) for _, _, _, _, k, norm, _ in jobs])
+    for (p, pod, origin, r, k, norm, base), o in zip(jobs, outs):
+        res.evaluations += 1
+        b1 = X.encode(None if r[0] == "N" else r[1])
+        m = ("ERR",) if o == "ERR" else ("OK", unhx(o))
+        if m[0] != b1[0] or (m[0] == "OK" and m[1] != b1[1]):
+            report(res, counts, dict(base, what="re-encoding differs", model=o[:300], impl=b1[1].hex()[:300] if b1[0] == "OK" else b1[1]), dis=True)
+            continue
+        bad = None
+        if b1[0] != "OK":
+            bad = ("accepted payload re-encodes", b1[1])
+        else:
+            if origin == "generated" and b1[1] != p:
+                bad = ("own output survives byte-for-byte", b1[1].hex()[:160])
+            r1 = X.decode(b1[1], pod)
+            if bad is None and r1[0] == "ERR":
+                bad = ("re-encoded payload is accepted", r1[1])
+            elif bad is None and (r1[0] != r[0] or (r1[0] == "V" and c09_values.canon(r1[1]) != c09_values.canon(r[1]))):
+                bad = ("re-encoded payload decodes to the same value", repr(r1)[:160])
+            elif bad is None and X.encode(None if r1[0] == "N" else r1[1]) != b1:
+                bad = ("fixed point after one pass", "")
+        if bad:
+            cls = "xp:one-pass-clause"
+            try:        # an entry whose sub-template is not idempotent is that template's defect, not the dict framing's
+                for (kk, cv), (_, blob1) in zip(norm[0], norm[1]):
+                    if c09_values.canon(X.blob_dec(kk, blob1, pod)) != cv:
+                        cls = "xp:entry-template-not-idempotent:%d" % kk
+            except Exception:       # noqa
+                pass
+            report(res, counts, dict(base, what=bad[0], clause=bad[0], detail=bad[1], **{"class": cls}))
+        elif b1[1] != p:
+            stats["decoder normalised the payload"] = stats.get("decoder normalised the payload", 0) + 1
+
+
+def suite_extraparams(ctx, model: Model):
+    res = CorrResult(suite="ExtraParams dict framing: model vs EXTRA_PARAM_COLLECTION / ObjectUpdateExtraParamsSerializer",
+                     rule="model Spec/ExtraParamsModel.v (count byte, entries as (U16 type, U32 length, blob), dict() with overwrite-in-place, "
+                          "tuple(dict.items()), None <-> b\"\"); per registered ExtraParamType a few values generated from its sub-template "
+                          "and serialized by the real choice spec (blob); object form: dicts over every ordered selection of <= 3 distinct "
+                          "types (thorough 4) and pair sequences that repeat a key -> serialize on both sides, round trip on the "
+                          "implementation where the model's domain (raw_dict_ok) holds; wire form: count byte + every ordered sequence "
+                          "of <= 3 entries WITH repetition over a pool of entries incl. same type / different value, wrong counts (+-1), an "
+                          "unknown type, empty blobs, every prefix of the short ones, seeded mutations, every byte string of length <= 1; "
+                          "object and plain-data form through the registered serializer: accept/reject, None/value, dict order and "
+                          "values (blobs compared through the real choice spec applied outside the dict code), re-encoding, C09's "
+                          "one-pass clauses; non-trivial = accepted")
+    rng = ctx.rng
+    counts, stats = {}, {}
+    X = LiveExtraParams()
+    gen = c09_values.Gen(rng)
+    pool = []       # (type int, blob)
+    for t, ch in sorted(X.choices.items()):
+        got = 0
+        for _ in range(12):
+            if got >= ctx.pick(2, 4):
+                break
+            try:
+                v = gen.value(ch._spec, {})
+                blob = X.blob_enc(t, v)
+                blob = X.blob_enc(t, X.blob_dec(t, blob, False))      # a fixed point of the sub-template
+                if X.blob_enc(t, X.blob_dec(t, blob, False)) != blob:
+                    continue
+            except Exception:       # noqa
+                continue
+            if (t, blob) not in pool:
+                pool.append((t, blob))
+                got += 1
+    stats["entry pool"] = len(pool)
+    types = sorted({t for t, _ in pool})
+    # ---- object form
+    objs = []
+    maxn = ctx.pick(3, 4)
+    first = {}
+    for t, b in pool:
+        first.setdefault(t, b)
+    for n in range(0, maxn + 1):
+        for sel in itertools.permutations(types[:ctx.pick(5, 8)], n):
+            objs.append(("dict", [(t, first[t]) for t in sel]))
+    for _ in range(ctx.pick(60, 1500)):
+        n = rng.randrange(1, 6)
+        objs.append(("pairs", [rng.choice(pool) for _ in range(n)]))
+    objs.append(("dict", [(t, first[t]) for t in types]))
+    lines, keep = [], []
+    for kind, ents in objs:
+        res.evaluations += 1
+        try:
+            pairs = [(X.enum(t), X.blob_dec(t, b, False)) for t, b in ents]
+        except Exception:       # noqa
+            continue
+        value = dict(pairs) if kind == "dict" else pairs
+        keep.append((kind, ents, X.encode(value)))
+        lines.append("xe " + dict_text(ents))
+        lines.append("xo " + dict_text(ents))
+    outs = model.run(lines)
+    payloads = []
+    for i, (kind, ents, real) in enumerate(keep):
+        eo, ok = outs[2 * i], outs[2 * i + 1]
+        m = ("ERR",) if eo == "ERR" else ("OK", unhx(eo))
+        base = {"kind": "te-xp-value", "value": repr(ents), "form": kind, "key": "ObjectUpdate.ObjectData.ExtraParams", "te": "extraparams"}
+        if m[0] != real[0] or (m[0] == "OK" and m[1] != real[1]):
+            report(res, counts, dict(base, what="serialized bytes differ", model=eo[:300], impl=real[1].hex()[:300] if real[0] == "OK" else real[1]), dis=True)
+            continue
+        if real[0] != "OK":
+            continue
+        res.distinct_nontrivial += 1
+        in_dom = ok == "1"
+        stats["in round-trip domain" if in_dom else "outside round-trip domain (repeated key)"] = \
+            stats.get("in round-trip domain" if in_dom else "outside round-trip domain (repeated key)", 0) + 1
+        if in_dom:
+            r = X.decode(real[1], False)
+            want = [(t, c09_values.canon(X.blob_dec(t, b, False))) for t, b in ents]
+            if r[0] != "V" or [(X.key_int(k), c09_values.canon(v)) for k, v in r[1].items()] != want:
+                report(res, counts, dict(base, what="value in the round-trip domain does not round-trip", payload=real[1].hex(),
+                                         clause="own output decodes to the value that was serialized", **{"class": "xp:domain-value-lost"}))
+        for pod in (False, True):
+            payloads.append((real[1], pod, "generated" if in_dom else "produced-outside-domain"))
+    # ---- wire form
+    def entry_bytes(t, b):
+        return t.to_bytes(2, "little") + len(b).to_bytes(4, "little") + b
+    small = pool[:ctx.pick(6, 10)]
+    same = [e for e in pool if sum(1 for x in pool if x[0] == e[0]) > 1][:4]
+    wpool = list(dict.fromkeys(small + same))[:ctx.pick(7, 12)]
+    wire = []
+    for n in range(0, 4):
+        for seq in itertools.product(wpool, repeat=n):
+            body = b"".join(entry_bytes(t, b) for t, b in seq)
+            wire.append((bytes((n,)) + body, "wire"))
+            if n and len(seq) == len({t for t, _ in seq}) + 1 or n <= 1:
+                wire.append((bytes((n + 1,)) + body, "wire-count+1"))
+                if n:
+                    wire.append((bytes((n - 1,)) + body, "wire-count-1"))
+    t0, b0 = pool[0]
+    wire += [(b"\x01" + entry_bytes(5, b""), "unknown-type"), (b"\x01" + entry_bytes(t0, b""), "empty-blob"),
+             (b"\x02" + entry_bytes(t0, b0) + entry_bytes(0xFFFF, b"\x00"), "unknown-type"),
+             (b"\x01" + entry_bytes(t0, b0 + b"\x00"), "blob-too-long"), (b"\x01" + entry_bytes(t0, b0[:-1]), "blob-too-short")]
+    wire += [(bytes((a,)), "one-byte") for a in range(256)] + [(b"", "empty")]
+    shorts = [w for w, o in wire if o == "wire" and len(w) <= 60][:ctx.pick(12, 80)]
+    for w in shorts:
+        for i in range(len(w)):
+            wire.append((w[:i], "prefix"))
+    valid = [w for w, o in wire if o == "wire" and len(w) > 1]
+    for _ in range(ctx.pick(300, 6000)):
+        wire.append((mutate(rng, rng.choice(valid)), "mutated"))
+    seen = set()
+    for w, o in wire:
+        if w in seen:
+            continue
+        seen.add(w)
+        for pod in (False, True):
+            payloads.append((w, pod, o))
+    stats["payload cases"] = len(payloads)
+    xp_check_payload(model, X, payloads, res, counts, stats)
+    res.distribution = {k: v for k, v in sorted(stats.items())}
+    res.samples = [{"payload": p.hex()[:120], "origin": o} for p, _, o in payloads[:3]]
     return res
 
 
@@ -1048,6 +1304,13 @@ def emit(ctx) -> list:
 # =====================================================================================
 # entry points used by harness/props/c09.py
 
+def _improper(ltext):
+    if not ltext:
+        return False
+    fs = [f.split(",") for f in ltext.split("/")]
+    return not (fs[0][0] == "1" and all(f[0] == "0" for f in fs[1:]))
+
+
 def correspond_te(ctx):
     import time
     t0 = time.time()
@@ -1061,7 +1324,10 @@ def correspond_te(ctx):
     try:
         live = live_te()
         t1 = time.time()
-        out = [suite_bitfield(ctx, model), suite_small(ctx, model), suite_live(ctx, model, live)]
+        out = [suite_bitfield(ctx, model), suite_small(ctx, model), suite_live(ctx, model, live), suite_extraparams(ctx, model)]
+        for r in out:       # report the most convincing / smallest case first: proper layouts, short payloads
+            r.disagreements.sort(key=lambda d: (_improper(d.get("layout")), len(str(d.get("payload", d.get("value", ""))))))
+            r.impl_violations.sort(key=lambda d: (_improper(d.get("layout")), len(str(d.get("payload", d.get("value", ""))))))
         ctx.notes.append("TextureEntry suites: driver build %.1fs, correspondence %.1fs" % (t1 - t0, time.time() - t1))
         return out
     finally:
@@ -1125,6 +1391,22 @@ def replay(ctx, case):
             except Exception:       # noqa
                 impl = "ERR"
             return (impl != o), "implementation: %s, model: %s" % (impl, o)
+        elif kind == "te-xp":
+            X = LiveExtraParams()
+            xp_check_payload(model, X, [(bytes.fromhex(case["payload"]), bool(case["pod"]), case.get("origin", "replay"))], res, counts, stats)
+        elif kind == "te-xp-value":
+            import ast
+            X = LiveExtraParams()
+            ents = ast.literal_eval(case["value"])
+            pairs = [(X.enum(t), X.blob_dec(t, b, False)) for t, b in ents]
+            real = X.encode(dict(pairs) if case.get("form") == "dict" else pairs)
+            o = model.run(["xe " + dict_text(ents)])[0]
+            m = ("ERR",) if o == "ERR" else ("OK", unhx(o))
+            if m[0] != real[0] or (m[0] == "OK" and m[1] != real[1]):
+                return True, "serialize: model %s, implementation %s" % (o[:200], real[1].hex()[:200] if real[0] == "OK" else real[1])
+            if real[0] == "OK":
+                xp_check_payload(model, X, [(real[1], pod, "generated" if len({t for t, _ in ents}) == len(ents) else "produced-outside-domain")
+                                            for pod in (False, True)], res, counts, stats)
         else:
             return False, "unknown TE case kind"
         bad = res.disagreements + res.impl_violations
